@@ -353,6 +353,13 @@ class History:
             store = self.fsys.pressures.get(t) if isinstance(self.fsys.pressures, dict) else None
             if store is None or [float(x) for x in store] != [float(x) for x in got["pressures"]]:
                 return self.fail("pressure-store", observed=str(store)[:80], expected="frame t's pressures under key t") or True
+            # the pressure table a user reads lists every cell once, in cell order, with that cell's own pressure
+            frame = self.fsys.frames[t]
+            pdf = call(frame.get_pressures)
+            tab = [(int(a), float(b)) for a, b in zip(pdf["id"].values, pdf["pressure"].values)]
+            exp = [(int(cid), float(c.pressure)) for cid, c in frame.cells.items()]
+            if tab != exp:
+                return self.fail("pressure-table", observed=tab[:5], expected=exp[:5], detail={"frame": t}) or True
             self.ctx.count("fresh-pressure-comparisons")
         return True
 
